@@ -1,0 +1,204 @@
+//go:build verif
+
+// Verification hook (add-only): exported wrappers of unexported helpers of this
+// package, compiled only with the `verif` build tag. No existing line of the
+// package is edited; with the tag off this file does not exist for the compiler.
+
+package deploy
+
+import (
+	"context"
+
+	"github.com/nspcc-dev/neo-go/pkg/core/transaction"
+	"github.com/nspcc-dev/neo-go/pkg/crypto/keys"
+	"github.com/nspcc-dev/neo-go/pkg/neorpc/result"
+	"github.com/nspcc-dev/neo-go/pkg/rpcclient/actor"
+	"github.com/nspcc-dev/neo-go/pkg/rpcclient/rolemgmt"
+	"github.com/nspcc-dev/neo-go/pkg/smartcontract"
+	"github.com/nspcc-dev/neo-go/pkg/smartcontract/manifest"
+	"github.com/nspcc-dev/neo-go/pkg/smartcontract/nef"
+	"github.com/nspcc-dev/neo-go/pkg/util"
+	"github.com/nspcc-dev/neo-go/pkg/wallet"
+	"go.uber.org/zap"
+)
+
+// ---------------------------------------------------------------------------
+// (a) pure helpers
+
+// VerifDivideFundsEvenly calls divideFundsEvenly.
+func VerifDivideFundsEvenly(fullAmount uint64, n int, f func(ind int, amount uint64)) {
+	divideFundsEvenly(fullAmount, n, f)
+}
+
+// VerifRuntimeTransactionModifier applies neoFSRuntimeTransactionModifier for
+// the given height to an empty transaction and an invocation result with the
+// given VM state; returns the nonce and ValidUntilBlock it set.
+func VerifRuntimeTransactionModifier(height uint32, vmState string) (nonce, vub uint32, err error) {
+	var r result.Invoke
+	r.State = vmState
+	var tx transaction.Transaction
+	err = neoFSRuntimeTransactionModifier(func() uint32 { return height })(&r, &tx)
+	return tx.Nonce, tx.ValidUntilBlock, err
+}
+
+// VerifSharedTxData mirrors sharedTransactionData.
+type VerifSharedTxData struct {
+	Sender          util.Uint160
+	ValidUntilBlock uint32
+	Nonce           uint32
+}
+
+func (x VerifSharedTxData) in() sharedTransactionData {
+	return sharedTransactionData{sender: x.Sender, validUntilBlock: x.ValidUntilBlock, nonce: x.Nonce}
+}
+
+// Bytes calls sharedTransactionData.bytes.
+func (x VerifSharedTxData) Bytes() []byte { return x.in().bytes() }
+
+// EncodeToString calls sharedTransactionData.encodeToString.
+func (x VerifSharedTxData) EncodeToString() string { return x.in().encodeToString() }
+
+// VerifDecodeSharedTxData calls sharedTransactionData.decodeString on a zero value.
+func VerifDecodeSharedTxData(s string) (VerifSharedTxData, error) {
+	var d sharedTransactionData
+	err := d.decodeString(s)
+	return VerifSharedTxData{Sender: d.sender, ValidUntilBlock: d.validUntilBlock, Nonce: d.nonce}, err
+}
+
+// UnshiftChecksum calls sharedTransactionData.unshiftChecksum.
+func (x VerifSharedTxData) UnshiftChecksum(data []byte) []byte { return x.in().unshiftChecksum(data) }
+
+// ShiftChecksum calls sharedTransactionData.shiftChecksum.
+func (x VerifSharedTxData) ShiftChecksum(data []byte) (bool, []byte) {
+	return x.in().shiftChecksum(data)
+}
+
+// VerifSharedTxDataMatches calls sharedTxDataMatches.
+func VerifSharedTxDataMatches(tx *transaction.Transaction, x VerifSharedTxData) bool {
+	return sharedTxDataMatches(tx, x.in())
+}
+
+// Lengths used by the codec.
+const (
+	VerifSharedTransactionDataLen         = sharedTransactionDataLen
+	VerifSharedTransactionDataChecksumLen = sharedTransactionDataChecksumLen
+)
+
+// VerifDomainDesignateNotaryTx is the NNS domain of the shared transaction data.
+const VerifDomainDesignateNotaryTx = domainDesignateNotaryTx
+
+// VerifDesignateNotarySignatureDomainForMember calls designateNotarySignatureDomainForMember.
+func VerifDesignateNotarySignatureDomainForMember(i int) string {
+	return designateNotarySignatureDomainForMember(i)
+}
+
+// ---------------------------------------------------------------------------
+// (b) Notary bootstrap: the real ticks and the real enableNotary loop
+
+// VerifNotaryPrm are the exported fields of enableNotaryPrm.
+type VerifNotaryPrm struct {
+	Logger                 *zap.Logger
+	Blockchain             Blockchain
+	NNSOnChainAddress      util.Uint160
+	SystemEmail            string
+	Committee              keys.PublicKeys // sorted, as Deploy does
+	LocalAcc               *wallet.Account
+	LocalAccCommitteeIndex int
+}
+
+// VerifNotaryMember is one committee member's Notary-bootstrap context: the
+// real blockchainMonitor plus the tick closure returned by the real
+// initDesignateNotaryRole{ToLocalAccount,AsLeader,AsSigner}Tick constructor,
+// chosen exactly as enableNotary chooses it.
+type VerifNotaryMember struct {
+	prm  enableNotaryPrm
+	tick func()
+}
+
+func (p VerifNotaryPrm) in(m *blockchainMonitor) enableNotaryPrm {
+	return enableNotaryPrm{
+		logger:                 p.Logger,
+		blockchain:             p.Blockchain,
+		monitor:                m,
+		nnsOnChainAddress:      p.NNSOnChainAddress,
+		systemEmail:            p.SystemEmail,
+		committee:              p.Committee,
+		localAcc:               p.LocalAcc,
+		localAccCommitteeIndex: p.LocalAccCommitteeIndex,
+	}
+}
+
+// VerifNewNotaryMember builds the monitor and the tick (same case analysis as
+// the head of enableNotary).
+func VerifNewNotaryMember(ctx context.Context, p VerifNotaryPrm) (*VerifNotaryMember, error) {
+	m, err := newBlockchainMonitor(p.Logger, p.Blockchain, make(chan struct{}, 1))
+	if err != nil {
+		return nil, err
+	}
+	prm := p.in(m)
+	var tick func()
+	switch {
+	case len(prm.committee) == 1:
+		tick, err = initDesignateNotaryRoleToLocalAccountTick(ctx, prm)
+	case prm.localAccCommitteeIndex == 0:
+		tick, err = initDesignateNotaryRoleAsLeaderTick(ctx, prm)
+	default:
+		tick, err = initDesignateNotaryRoleAsSignerTick(ctx, prm)
+	}
+	if err != nil {
+		return nil, err
+	}
+	return &VerifNotaryMember{prm: prm, tick: tick}, nil
+}
+
+// Tick runs one real tick.
+func (x *VerifNotaryMember) Tick() { x.tick() }
+
+// Height is the monitor's view of the chain height.
+func (x *VerifNotaryMember) Height() uint32 { return x.prm.monitor.currentHeight() }
+
+// Stop asks the monitor to stop (blockchainMonitor.stop blocks until the
+// listener goroutine is selecting, so it is called asynchronously; closing the
+// block subscription channel ends the listener as well).
+func (x *VerifNotaryMember) Stop() { go x.prm.monitor.stop() }
+
+// VerifEnableNotary runs the real enableNotary (monitor included).
+func VerifEnableNotary(ctx context.Context, p VerifNotaryPrm) error {
+	m, err := newBlockchainMonitor(p.Logger, p.Blockchain, make(chan struct{}, 1))
+	if err != nil {
+		return err
+	}
+	return enableNotary(ctx, p.in(m))
+}
+
+// VerifMakeUnsignedDesignateCommitteeNotaryTx calls
+// makeUnsignedDesignateCommitteeNotaryTx with a RoleManagement client built
+// exactly as the leader/signer tick constructors build theirs.
+func VerifMakeUnsignedDesignateCommitteeNotaryTx(b Blockchain, localAcc *wallet.Account, committee keys.PublicKeys, x VerifSharedTxData) (*transaction.Transaction, error) {
+	committeeMultiSigM := smartcontract.GetMajorityHonestNodeCount(len(committee))
+	committeeMultiSigAcc := wallet.NewAccountFromPrivateKey(localAcc.PrivateKey())
+	if err := committeeMultiSigAcc.ConvertMultisig(committeeMultiSigM, committee); err != nil {
+		return nil, err
+	}
+	committeeActor, err := actor.New(b, []actor.SignerAccount{
+		{Signer: transaction.Signer{Account: localAcc.ScriptHash(), Scopes: transaction.None}, Account: localAcc},
+		{Signer: transaction.Signer{Account: committeeMultiSigAcc.ScriptHash(), Scopes: transaction.CalledByEntry}, Account: committeeMultiSigAcc},
+	})
+	if err != nil {
+		return nil, err
+	}
+	return makeUnsignedDesignateCommitteeNotaryTx(rolemgmt.New(committeeActor), committee, x.in())
+}
+
+// VerifInitNNSContract runs the real initNNSContract (monitor included).
+func VerifInitNNSContract(ctx context.Context, l *zap.Logger, b Blockchain, localAcc *wallet.Account,
+	n nef.File, mf manifest.Manifest, email string, tryDeploy bool) (util.Uint160, error) {
+	m, err := newBlockchainMonitor(l, b, make(chan struct{}, 1))
+	if err != nil {
+		return util.Uint160{}, err
+	}
+	return initNNSContract(ctx, deployNNSContractPrm{
+		logger: l, blockchain: b, monitor: m, localAcc: localAcc,
+		localNEF: n, localManifest: mf, systemEmail: email, tryDeploy: tryDeploy,
+	})
+}
